@@ -140,7 +140,7 @@ func propC11Paced(rec *stats.Rec, sc *scratch, exclude map[string]bool, pacings 
 		outside := filepath.Join(root, "outside")
 		_ = os.MkdirAll(outside, 0o755)
 		// initial content
-		names := []string{"x.json", "y.yaml", "z.json"}
+		names := []string{"x.json", "y.yaml", "z.json", ".h.yaml"} // a hidden name is a Spec name like any other
 		for _, d := range dirs {
 			if exists[d] && rapid.Bool().Draw(t, "init-"+filepath.Base(d)) {
 				data, _ := c11Content(t, "init"+filepath.Base(d))
